@@ -259,9 +259,11 @@ def hybrid_rush_larsen(
         linearized = sympy.Symbol(linearized_name)
         eqs.append(printer(linearized, expr_diff, use_variable_prefix=True))
 
-        need_zero_div_check = not fraction_numerator_is_nonzero(expr_diff)
-        if not need_zero_div_check:
-            logger.debug(f"{linearized_name} cannot be zero. Skipping zero division check")
+        # Always compare the linearization with delta. An expression that cannot be
+        # exactly zero (see fraction_numerator_is_nonzero) can still be arbitrarily
+        # small, in which case exp(linearized * dt) - 1 cancels catastrophically,
+        # and skipping the check would ignore the delta chosen by the user.
+        need_zero_div_check = True
 
         RL_term = x.symbol / linearized * (sympy.exp(linearized * dt) - 1)
         if need_zero_div_check:
@@ -352,9 +354,11 @@ def generalized_rush_larsen(
         linearized = sympy.Symbol(linearized_name)
         eqs.append(printer(linearized, expr_diff, use_variable_prefix=True))
 
-        need_zero_div_check = not fraction_numerator_is_nonzero(expr_diff)
-        if not need_zero_div_check:
-            logger.debug(f"{linearized_name} cannot be zero. Skipping zero division check")
+        # Always compare the linearization with delta. An expression that cannot be
+        # exactly zero (see fraction_numerator_is_nonzero) can still be arbitrarily
+        # small, in which case exp(linearized * dt) - 1 cancels catastrophically,
+        # and skipping the check would ignore the delta chosen by the user.
+        need_zero_div_check = True
 
         RL_term = x.symbol / linearized * (sympy.exp(linearized * dt) - 1)
         if need_zero_div_check:
